@@ -13,6 +13,8 @@ package suites
 import (
 	"bytes"
 	"encoding/binary"
+	"encoding/hex"
+	"encoding/json"
 	"fmt"
 	"os"
 	"path/filepath"
@@ -245,6 +247,37 @@ func historySuite(seed uint64, tier, outDir string) (*core.Result, error) {
 	}
 	S := func(t, v uint32) histOp { return histOp{Kind: "save", T: t, V: v} }
 	L := func(t uint32) histOp { return histOp{Kind: "load", T: t} }
+
+	// ---- corpus first (minimized past failures)
+	if root := os.Getenv("VERIF_ROOT"); root != "" {
+		files, _ := filepath.Glob(filepath.Join(root, "corpus", "C09", "*.json"))
+		for _, f := range files {
+			b, err := os.ReadFile(f)
+			if err != nil {
+				continue
+			}
+			var rj struct {
+				Replay struct {
+					Suite string `json:"suite"`
+					Case  struct {
+						Initial string   `json:"initial"`
+						Ops     []histOp `json:"ops"`
+					} `json:"case"`
+				} `json:"replay"`
+			}
+			if json.Unmarshal(b, &rj) != nil || rj.Replay.Suite != "history" {
+				continue
+			}
+			initial, err := hex.DecodeString(rj.Replay.Case.Initial)
+			if err != nil {
+				continue
+			}
+			res.Count("corpus")
+			if err := emit("corpus:"+filepath.Base(f), initial, rj.Replay.Case.Ops); err != nil {
+				return nil, err
+			}
+		}
+	}
 
 	// ---- deterministic classes (the quantifier's named inputs)
 	res.Count("before-origin")
